@@ -65,9 +65,16 @@ func isNilDeref(pan interface{}) bool {
 func isPow2(x int) bool { return x > 0 && x&(x-1) == 0 }
 
 // sumsScenario: one scenario per (world, method) so that the large rings spread over the workers.
-func sumsScenario(w *world, mi int) engine.Scenario {
+func sumsScenario(w *world, mi int) engine.Scenario { return sumsScenarioOn(w, mi, nil) }
+
+// sumsScenarioOn: with an explicit pair list (the "many terms" family: counts of large Hamming weight on big rings).
+func sumsScenarioOn(w *world, mi int, only []pair) engine.Scenario {
 	name := "sums/" + w.name + "/" + sumMethods[mi]
 	ps := sumPairs(w.rowLen)
+	if only != nil {
+		name = "manyterms/" + w.name + "/" + sumMethods[mi]
+		ps = only
+	}
 	return engine.Scenario{Name: name, Bound: -1, Fn: func(c *engine.Chooser) {
 		w.ensure(c)
 		pi := c.Choose(len(ps), "pair")
@@ -235,6 +242,9 @@ func sumsScenario(w *world, mi int) engine.Scenario {
 			c.Outcome(name, method, wr, wi)
 		}
 		c.Cover("sum", method)
+		if only != nil && valid {
+			c.Cover("many-terms", fmt.Sprintf("%s-hw%d", w.scheme, bits.OnesCount(uint(n))))
+		}
 		switch {
 		case !valid:
 			c.Cover("pair", "invalid")
